@@ -289,7 +289,11 @@ def lin_eval(b, local, depth=0):
                 return lin_eval(b, p[0], depth + 1)
             if p[1][-1][0] == "index":
                 return (0, 1)
+            if all(e[0] == "deref" for e in p[1]) and 1 <= p[0] <= b.argc and b.local_ty(p[0]).lstrip("&").strip() in ("u8", "mut u8"):
+                return (0, 1)      # `|&len| ..`: a byte taken from the buffer
             return None
+        if 1 <= p[0] <= b.argc and b.local_ty(p[0]) == "u8" and not b.defs().get(p[0]):
+            return (0, 1)
         return lin_eval(b, p[0], depth + 1)
 
     if rv["k"] == "use":
@@ -309,29 +313,67 @@ def lin_eval(b, local, depth=0):
     return None
 
 
-def ret_lin(b, blocks):
-    """linear value stored into _0 (possibly wrapped in Ok) within `blocks`"""
+def ret_lin(b, blocks, prog=None):
+    """linear value stored into _0 (possibly wrapped in Ok / Some, possibly produced by `opt.map(|x| ..)`) within `blocks`"""
+    def of_operand(op, depth=0):
+        k = op_int(op)
+        if k is not None:
+            return (k, 0)
+        p = op_place(op)
+        if p is None or depth > 6:
+            return None
+        if p[1] and p[1][0][0] == "field":
+            return lin_eval(b, p[0])
+        defs = b.defs().get(p[0], [])
+        for d in defs:
+            if d[0] == "assign" and d[3]["rv"]["k"] == "agg" and d[3]["rv"].get("variant") in ("Ok", "Some") and d[3]["rv"]["ops"]:
+                return of_operand(d[3]["rv"]["ops"][0], depth + 1)
+            if d[0] == "call":
+                c = Callee(d[2]["f"])
+                if c.name == "Option::map" and prog is not None and len(d[2]["args"]) == 2:
+                    cp = op_place(d[2]["args"][1])
+                    cty = b.local_ty_def(cp[0]) if cp else None
+                    cb = prog.body(cty) if cty else None
+                    if cb is not None:
+                        return ret_lin(cb, set(cb.rpo()), prog)
+        return lin_eval(b, p[0])
+
+    # the value may be produced per arm into a carrier local and wrapped after the join (`Ok(match .. { .. })`)
+    carriers = {0}
+    changed = True
+    while changed:
+        changed = False
+        for blk in b.rpo():
+            for s in b.stmts(blk):
+                if s["k"] == "assign" and s["p"][0] in carriers and not s["p"][1]:
+                    rv = s["rv"]
+                    ops = rv["ops"] if rv["k"] == "agg" and rv.get("variant") in ("Ok", "Some") else ([rv["op"]] if rv["k"] == "use" else [])
+                    for o in ops:
+                        pp = op_place(o)
+                        if pp is not None and not pp[1] and pp[0] not in carriers and len(b.defs().get(pp[0], [])) > 1:
+                            carriers.add(pp[0])
+                            changed = True
     for blk in b.rpo():
         if blk not in blocks:
             continue
         for s in b.stmts(blk):
-            if s["k"] == "assign" and s["p"][0] == 0 and not s["p"][1]:
+            if s["k"] == "assign" and s["p"][0] in carriers and not s["p"][1]:
                 rv = s["rv"]
-                if rv["k"] == "agg" and rv.get("variant") == "Ok":
-                    p = op_place(rv["ops"][0])
-                    k = op_int(rv["ops"][0])
-                    return (k, 0) if k is not None else (lin_eval(b, p[0]) if p else None)
+                if rv["k"] == "agg" and rv.get("variant") in ("Ok", "Some") and rv["ops"]:
+                    return of_operand(rv["ops"][0])
                 if rv["k"] == "use":
-                    k = op_int(rv["op"])
-                    p = op_place(rv["op"])
-                    if k is not None:
-                        return (k, 0)
-                    if p and p[1] and p[1][0][0] == "field":
-                        return lin_eval(b, p[0])
-                    return lin_eval(b, p[0]) if p else None
+                    return of_operand(rv["op"])
                 if rv["k"] == "bin":
-                    # _0 = Add(..) unlikely with overflow checks
                     return None
+        t = b.term(blk)
+        if t and t["k"] == "call" and t["dest"][0] in carriers and not t["dest"][1]:
+            c = Callee(t["f"])
+            if c.name == "Option::map" and prog is not None and len(t["args"]) == 2:
+                cp = op_place(t["args"][1])
+                cty = b.local_ty_def(cp[0]) if cp else None
+                cb = prog.body(cty) if cty else None
+                if cb is not None:
+                    return ret_lin(cb, set(cb.rpo()), prog)
     return None
 
 
@@ -426,7 +468,18 @@ def e2_e3(ctx, prog, bodies):
             "the encoder has no check for an empty host name (it cannot even report one: it returns ()): a zero-length name is sent")
         ctx.ob("E2", e.defp, "empty-name-refused", loc(e.sp), ok, msg, ordinal=False)
     # length helpers (SOCKS5 style)
-    helpers = [b for b in bodies if b.root == b.defp and "socks5::address" in b.defp and b.local_ty(0) in ("usize", "std::result::Result<usize, anyhow::Error>")]
+    helpers = []
+    sock_mod = None
+    for (st, e_, d_) in pairs:
+        if st == "socks5":
+            sock_mod = e_.defp.rsplit("::", 1)[0]
+    for b in bodies:
+        if b.root != b.defp or b.kind not in ("Fn", "AssocFn") or sock_mod is None or not b.defp.startswith(sock_mod + "::"):
+            continue
+        rt = b.local_ty(0).replace("std::result::Result<", "").replace("std::option::Option<", "").replace(", anyhow::Error>", "").replace(">", "").strip()
+        args = [b.local_ty(i) for i in range(1, b.argc + 1)]
+        if rt == "usize" and (any("Address" in a for a in args) or (any("BytesMut" in a or "[u8]" in a for a in args) and "usize" in args)):
+            helpers.append(b)
     ctx.floor("E3", "SOCKS5 address length helpers", 2, len(helpers))
     sock = [p for p in pairs if p[0] == "socks5"]
     if sock:
@@ -436,7 +489,7 @@ def e2_e3(ctx, prog, bodies):
         for h in helpers:
             regs = _helper_regions(h)
             for v, blocks in regs.items():
-                got = ret_lin(h, blocks)
+                got = ret_lin(h, blocks, prog)
                 ctx.ob("E3", h.defp, f"{v}:length-equals-encoded-size", loc(h.sp), got is not None and got == want.get(v), f"{last_seg(h.defp)}({v}) = {got}; encoder writes {want.get(v)} (constant, name-length coefficient)", ordinal=False)
             ctx.ob("E3", h.defp, "all-variants", loc(h.sp), len(regs) == 3, f"arms found: {sorted(regs)}", ordinal=False)
 
